@@ -24,7 +24,7 @@ REPORT_COUNTERS = ['programs', 'predicates', 'ok', 'mismatch', 'made_predicates'
 
 def plan(tier, seed):
   return {'nshards': 16, 'timeout_s': 5400 if tier == 'thorough' else 1200,
-          'params': {'n_programs': 600 if tier == 'thorough' else 25}}
+          'params': {'n_programs': 150 if tier == 'thorough' else 25}}
 
 
 def deps(prog, sure=False):
